@@ -1,9 +1,11 @@
 package main
 
 import (
+	"bytes"
 	"fmt"
 	"sort"
 	"strings"
+	"sync"
 	"time"
 
 	"golang.org/x/crypto/ssh"
@@ -395,4 +397,80 @@ func closeDuringRoundTrip(r *ev.Run) {
 			r.Nontrivial("close-during-round-trip:" + busy)
 		})
 	}
+}
+
+// lateForwardReply: a relayed request is answered by the underlying agent only after 3.6 s. Whatever the shim made of
+// that (it may well have given up on it), the exchanges that follow are the shim's own: Lock with the right passphrase
+// locks, Unlock with a wrong one is refused and leaves the shim locked, the right one unlocks.
+func lateForwardReply(r *ev.Run) {
+	var wg sync.WaitGroup
+	for vi, slow := range [][]byte{append([]byte{200}, []byte("answered-late")...), {19}} {
+		wg.Add(1)
+		go func(vi int, slow []byte) { defer wg.Done(); lateForwardReplyOne(r, vi, slow) }(vi, slow)
+	}
+	wg.Wait()
+}
+
+// (the relayed request is an echo request of the harness, or a raw remove-all request, which the agent answers "success")
+func lateForwardReplyOne(r *ev.Run, vi int, slow []byte) {
+	c := r.Case("late-forward-reply", vi)
+	if c == nil {
+		return
+	}
+	r.Eval(1)
+	r.Guard(c, "late reply to a relayed request, then lock and unlock", nil, func() {
+		ag := wire.New()
+		defer ag.Close()
+		sock, err := ag.Listen()
+		if err != nil {
+			r.Inconclusive(err.Error())
+			return
+		}
+		ag.Keyring.Add(agent.AddedKey{PrivateKey: gen.Pool()[2].Priv, Comment: "k"})
+		inner, err := shimagent.New(shimagent.Option{Address: sock})
+		if err != nil {
+			r.Violation(c, "shim-construction-fails-without-fault", err.Error(), nil)
+			return
+		}
+		hung := false
+		s := &sh.Guarded{Inner: inner, OnHang: func(op string) { hung = true; ag.Close() }}
+		ag.SetPlan(func(_ int, req []byte) wire.Action {
+			if bytes.Equal(req, slow) {
+				return wire.Action{Kind: wire.Honest, Delay: 3600 * time.Millisecond}
+			}
+			return wire.Action{Kind: wire.Honest}
+		})
+		_, ferr := s.Forward(slow)
+		if ferr != nil {
+			// the shim gave up waiting: give the late reply time to arrive before going on
+			time.Sleep(1500 * time.Millisecond)
+		}
+		right, wrong := []byte("right passphrase"), []byte("wrong passphrase")
+		lerr := s.Lock(right)
+		uerr := s.Unlock(wrong)
+		l, listErr := s.List()
+		if hung {
+			r.Violation(c, "operation-does-not-return:late-forward-reply", "", nil)
+			return
+		}
+		if lerr == nil && uerr == nil {
+			r.Violation(c, "unlock-with-wrong-passphrase-succeeds:after-a-late-forward-reply", fmt.Sprintf("a relayed request was answered after 3.6 s (Forward err=%v); then Lock(right)=nil and Unlock(wrong)=nil", ferr), nil)
+			return
+		}
+		if lerr == nil && (listErr == nil && len(l) > 0) {
+			r.Violation(c, "locked-list-discloses:after-a-late-forward-reply", fmt.Sprintf("Forward err=%v, Lock=nil, Unlock(wrong)=%v, then List returned %d identities", ferr, uerr, len(l)), nil)
+			return
+		}
+		if lerr == nil {
+			if err := s.Unlock(right); err != nil {
+				r.Violation(c, "unlock-with-right-passphrase-fails:after-a-late-forward-reply", fmt.Sprintf("Forward err=%v: %v", ferr, err), nil)
+				return
+			}
+		}
+		if !hung {
+			s.Close()
+		}
+		r.Count("lock / wrong unlock / right unlock after a relayed request that was answered after 3.6 s", 1)
+		r.Nontrivial(fmt.Sprintf("late-forward-reply:%d", vi))
+	})
 }
